@@ -55,6 +55,19 @@ def run(ctx):
                 "distinct by (bytes, segmentation, bufsize, end, calls)")
     ctx.mc("MC_Socket", "MC_Socket_thorough.cfg" if big else "MC_Socket.cfg", timeout=1500)
     ctx.mc("MC_ReaderLemmas", "MC_ReaderLemmas_all4.cfg" if big else "MC_ReaderLemmas_all.cfg", timeout=1500)
+    if big:
+        # unbounded byte values, bounded lengths: Conservation as an inductive invariant, discharged symbolically by Apalache
+        from .. import tlc as _tlc
+        from ..common import MachineryError
+
+        res = {}
+        for name, args in (("base", ["--cinit=ConstInit", "--init=Init", "--inv=IndInv", "--length=0"]),
+                           ("step", ["--cinit=ConstInit", "--init=IndInit", "--inv=IndInv", "--length=1"])):
+            outcome, secs = _tlc.apalache("MC_SocketInd", args, ctx.work)
+            res[name] = {"outcome": outcome, "wall_s": round(secs, 1)}
+            if outcome == "Error":
+                raise MachineryError("Apalache: the inductive invariant of MC_SocketInd fails (%s)" % name)
+        ctx.extra["apalache_inductive_invariant"] = res
     pool = st.frame_pool(rng)
     from ..common import frame
 
